@@ -128,6 +128,38 @@ func run(args []string) int {
 		if strings.HasPrefix(t, "rule:") {
 			prop = "RULE-" + strings.TrimPrefix(t, "rule:")
 		}
+		if tier == "thorough" && replayKey == "" && !strings.HasPrefix(t, "rule:") {
+			native := map[string]string{}
+			for _, res := range results {
+				if tierOf(res.rule) == "quick" {
+					for _, o := range res.obs {
+						native[o.Key] = o.Status
+					}
+				}
+			}
+			summary, diffs := crossLoad(repo, sel, native)
+			xr := &R{rule: &Rule{ID: "XARCH-consistent", Doc: "the quick rules give the same verdict on the program loaded under GOARCH=386 and under GOOS=windows (build-constrained or size-dependent code must not change a verdict)"}}
+			for _, d := range diffs {
+				xr.bad("diff:"+d, "-", d)
+			}
+			for _, e := range summary {
+				xr.ok(fmt.Sprint("env:", e["env"]), "-", fmt.Sprintf("%v obligations re-checked, %v differences", e["obligations"], e["differences"]))
+			}
+			results = append(results, ruleResult{rule: xr.rule, obs: xr.obs, info: map[string]interface{}{"cross_loads": summary}})
+			sv := selfValidate(repo, verif, sel)
+			fired := 0
+			for _, v := range sv {
+				if v.Result == "fires" {
+					fired++
+				}
+			}
+			sr := &R{rule: &Rule{ID: "SELF-validation", Doc: "informational: each seeded one-instance-broken variant of /verif/mutants/own that targets a rule of this property is applied to a scratch copy and the rule must fire; recorded in the evidence, never a violation"}}
+			sr.ok("summary", "-", fmt.Sprintf("%d of %d seeded variants make their rule fire", fired, len(sv)))
+			results = append(results, ruleResult{rule: sr.rule, obs: sr.obs, info: map[string]interface{}{"seeded_variants": sv}})
+			for _, v := range sv {
+				fmt.Printf("self-validation %-34s rule=%-20s %s %s\n", v.Name, v.Rule, v.Result, v.Detail)
+			}
+		}
 		if e := finish(c, verif, prop, tier, seed, results, known, pt0, replayKey); e > exit {
 			exit = e
 		}
